@@ -103,8 +103,43 @@ def is_allowed(cfgname, origin, scheme, host, xh):
     return origin in allowed_values(cfgname, scheme, host, xh)
 
 
+def fuzz_origin(base, n):
+    """A seeded small mutation of an allowed origin (never equal to it)."""
+    import random
+    r = random.Random(n)
+    o = base
+    for _ in range(r.randint(1, 3)):
+        k = r.randrange(9)
+        i = r.randrange(len(o) + 1)
+        if k == 0 and o:
+            o = o[:max(0, i - 1)] + o[i:]               # drop a character
+        elif k == 1:
+            o = o[:i] + r.choice('.-:/@#?%\\xX0 ') + o[i:]  # insert one
+        elif k == 2 and o:
+            j = min(i, len(o) - 1)
+            o = o[:j] + o[j].swapcase() + o[j + 1:]     # flip case
+        elif k == 3:
+            o = o + r.choice(['.', '/', ':80', ':443', '.evil.test', '@evil',
+                              '#', '?', '%00', ',http://evil.test'])
+        elif k == 4:
+            o = r.choice(['evil.', 'x', ' ', 'http://evil.test,', '//']) + o
+        elif k == 5:
+            o = o.replace('://', r.choice([':/', ':///', '%3A//', '://@',
+                                           '://evil.test@']), 1)
+        elif k == 6:
+            o = o.replace('.', r.choice(['%2E', '\xb7', '..', '']), 1)
+        elif k == 7:
+            o = o.replace('http', r.choice(['HTTP', 'https', 'ws', 'htp']), 1)
+        else:
+            o = o[::-1] if len(o) < 4 else o[:4] + o[4:][::-1]
+    return o if o != base else base + '.'
+
+
 def make_origin(variant, vals):
     base = vals[0] if vals else 'http://srv.test'
+    if variant.startswith('fuzz:'):
+        return fuzz_origin(vals[int(variant.split(':')[2]) % len(vals)]
+                           if vals else base, int(variant.split(':')[1]))
     if variant == 'absent':
         return None
     if variant == 'empty':
@@ -194,7 +229,9 @@ class SpyDict(dict):
 
 def run_cell(rec, cell):
     icfg, icred, ivar, ienv, ikind, isrv = cell
-    cfgname, cred, variant = CFG[icfg], bool(icred), VARIANTS[ivar]
+    cfgname, cred = CFG[icfg], bool(icred)
+    # (ivar may be a 'fuzz:<seed>:<which allowed value>' string)
+    variant = ivar if isinstance(ivar, str) else VARIANTS[ivar]
     envname, kind, srv = ENV[ienv], KINDS[ikind], SRV[isrv]
     scheme, host, xh = env_shape(envname)
     vals = allowed_values(cfgname, scheme, host, xh)
@@ -214,10 +251,12 @@ def run_cell(rec, cell):
             origin = None
     if origin is None and variant != 'absent':
         return
-    if srv == 'H' and (host is None or (origin is not None and
-                                        origin != origin.strip())):
-        # an HTTP/1.1 request without Host never reaches the server, and
-        # blanks around a header value are not part of the value on the wire
+    if srv == 'H' and (host is None or (origin is not None and (
+            origin != origin.strip() or not origin.isascii()))):
+        # an HTTP/1.1 request without Host never reaches the server, blanks
+        # around a header value are not part of the value on the wire, and
+        # what a real HTTP stack does to non-ASCII header bytes on the way in
+        # and out is its own business
         return
     case = {'cell': list(cell)}
     rec.evaluations += 1
@@ -274,6 +313,15 @@ def run_cell(rec, cell):
                   'X-Forwarded-Proto' in xh and 'X-Forwarded-Host' in xh and
                   origin == '%s://%s' % (xh['X-Forwarded-Proto'], host))
         ok = is_allowed(cfgname, origin, scheme, host, xh) if origin else True
+        # mechanism of known finding K12: the ASGI adapter decodes header
+        # values as UTF-8 and SKIPS a header it cannot decode, so an Origin
+        # with such bytes is dropped and the request goes on as if it had none
+        undecodable = False
+        if srv == 'A' and origin:
+            try:
+                origin.encode('latin-1').decode('utf-8')
+            except UnicodeError:
+                undecodable = True
         if origin is not None:
             rec.key('cell/' + ','.join(map(str, cell)))
         if checked and not ok:
@@ -283,6 +331,7 @@ def run_cell(rec, cell):
                 ws.server_closed))
             if not refused:
                 rec.viol(HYBRID_KEY[srv] if hybrid else
+                         'asgi-undecodable-origin-dropped' if undecodable else
                          'disallowed-origin-admitted-' + (
                              'default' if cfgname == 'none' else cfgname),
                     'disallowed Origin answered status=%r accepted=%r exc=%r: '
@@ -388,6 +437,88 @@ def run_dup_origin(rec, case):
         sim.teardown()
 
 
+def run_origin_sequence(rec, case):
+    """Several requests on ONE server that is reached under several host
+    names (default policy: the request's own scheme://host; or a predicate
+    whose answer changes between requests): every request is judged against
+    ITS OWN Host header / the predicate's answer at that moment - what an
+    earlier request was granted plays no part."""
+    import random
+    srv, cfgname, sd = case['oseq']
+    r = random.Random(sd)
+    rec.evaluations += 1
+    rec.count('origin_sequences')
+    rec.key('oseq/%s/%s/%d' % (srv, cfgname, sd % 7))
+    hosts = ['srv.test', 'evil.example', 'other.test:8080']
+    state = {'ok': set()}
+    kw = {}
+    if cfgname == 'callable':
+        kw['cors_allowed_origins'] = lambda o: o in state['ok']
+    sim = scen.make_sim(srv, server_kwargs=kw)
+    log = []
+    try:
+        h = None
+        for step in range(r.randint(3, 8)):
+            host = r.choice(hosts)
+            origin = 'http://' + r.choice(hosts)
+            if cfgname == 'callable':
+                state['ok'] = set(r.sample(['http://' + x for x in hosts],
+                                           r.randint(0, 2)))
+                ok = origin in state['ok']
+            else:
+                ok = origin == 'http://' + host
+            sim.host = host
+            kind = r.choice(['open', 'open-ws', 'poll'])
+            if kind == 'poll' and h is None:
+                kind = 'open'
+            hd = {'Origin': origin}
+            ws = None
+            n0, tbl = len(sim.events), sim.table_sids()
+            if kind == 'open':
+                t = sim.request('GET', {'transport': 'polling', 'EIO': '4'},
+                                hd)
+            elif kind == 'open-ws':
+                ws, t = sim.ws_request({'transport': 'websocket',
+                                        'EIO': '4'}, hd)
+            else:
+                sim.app_call('send', h.sid, 'q%d' % step)
+                sim.quiesce()
+                t = sim.poll(h, headers=hd)
+            sim.quiesce()
+            log.append((kind, host, origin, ok, t.status))
+            refused = t.done and (t.code == 400 or (
+                ws is not None and srv == 'A' and not ws.accepted and
+                ws.server_closed))
+            desc = ('request #%d (%s, Host %s, Origin %s) of the sequence %r '
+                    'cors_allowed_origins=%s server=%s' % (
+                        step + 1, kind, host, origin, log, cfgname, srv))
+            if not ok:
+                rec.count('must_refuse')
+                if not refused or len(sim.events) != n0 or \
+                        sim.table_sids() != tbl:
+                    rec.viol('disallowed-origin-admitted-after-earlier-grant',
+                             'status=%r, %d new events: %s' % (
+                                 t.status, len(sim.events) - n0, desc), case)
+                    return
+            else:
+                rec.count('allowed_seen')
+                if refused:
+                    rec.viol('allowed-origin-refused-in-sequence', desc, case)
+                    return
+                if kind == 'open' and t.code == 200 and h is None:
+                    from vf.simbase import decode_payload, Handle
+                    h = Handle(0)
+                    h.sid = decode_payload(t.text())[0][1]['sid']
+            acao = t.header_all('Access-Control-Allow-Origin') \
+                if t.headers else []
+            if acao and (not ok or acao != [origin]):
+                rec.viol('acao-over-grant', 'Access-Control-Allow-Origin %r: '
+                         '%s' % (acao, desc), case)
+                return
+    finally:
+        sim.teardown()
+
+
 def plan(tier, seed):
     rng = gen.mkrng('c13', seed)
     allc = list(itertools.product(range(len(CFG)), range(2),
@@ -397,10 +528,20 @@ def plan(tier, seed):
         chosen = allc
     else:
         chosen = rng.sample(allc, 6000)
+    # seeded mutations of allowed origins
+    for k in range(120000 if tier == 'thorough' else 1200):
+        chosen.append((rng.randrange(len(CFG)), rng.randrange(2),
+                       'fuzz:%d:%d' % (seed * 1000003 + k, rng.randrange(4)),
+                       rng.randrange(len(ENV)), rng.randrange(len(KINDS)),
+                       rng.randrange(3)))
     rng.shuffle(chosen)
     n = 16
     shards = [{'cells': chosen[i::n], 'all': tier == 'thorough'}
               for i in range(n)]
+    shards[1]['oseqs'] = [
+        {'oseq': [srv, cfg, seed * 100003 + k]} for srv in SRV
+        for cfg in ('none', 'callable')
+        for k in range(2000 if tier == 'thorough' else 40)]
     shards[0]['dups'] = [
         {'dup': [cfg, srv, kind, order, shape]}
         for cfg in ('none', 'str', 'list', 'callable') for srv in SRV
@@ -413,6 +554,7 @@ def plan(tier, seed):
 def run_shard(spec):
     rec = Rec()
     scen.run_cases(rec, spec.get('dups', []), run_dup_origin)
+    scen.run_cases(rec, spec.get('oseqs', []), run_origin_sequence)
     scen.run_cases(rec, [tuple(c) for c in spec['cells']], run_cell)
     if spec.get('all'):
         rec.extra['exhaustive'] = True
@@ -423,6 +565,9 @@ def replay(case):
     rec = Rec()
     if 'dup' in case:
         run_dup_origin(rec, case)
+        return rec.violations
+    if 'oseq' in case:
+        run_origin_sequence(rec, case)
         return rec.violations
     run_cell(rec, tuple(case['cell']))
     return rec.violations
